@@ -1379,3 +1379,81 @@ Section SerializeProofs.
     - destruct S as (-> & -> & Ho). exists f'; split; [reflexivity|exact Ho].
   Qed.
 End SerializeProofs.
+
+(* ================================================================== *)
+(* sequences of descriptions: no state is carried from one to the next *)
+
+Lemma slot_get_set_same i d st : slot_get i (slot_set i d st) = Some d.
+Proof.
+  induction st as [|[j d'] r IH]; simpl.
+  - rewrite Nat.eqb_refl; reflexivity.
+  - destruct (Nat.eqb i j) eqn:E; simpl; [rewrite Nat.eqb_refl; reflexivity|rewrite E; exact IH].
+Qed.
+
+Lemma slot_get_set_other i j d st : i <> j -> slot_get j (slot_set i d st) = slot_get j st.
+Proof.
+  intro H. induction st as [|[k d'] r IH]; simpl.
+  - destruct (Nat.eqb_spec j i); [congruence|reflexivity].
+  - destruct (Nat.eqb_spec i k) as [->|N]; simpl.
+    + destruct (Nat.eqb_spec j k); [congruence|reflexivity].
+    + destruct (Nat.eqb j k); [reflexivity|exact IH].
+Qed.
+
+Section Sequences.
+  Variable mk : descr -> descr.
+  Variable vf : descr -> perr + descr.
+
+  (* an operation on another description leaves this one alone *)
+  Lemma dstep_frame st o i : op_slot o <> i -> slot_get i (dstep mk vf st o) = slot_get i st.
+  Proof.
+    intro H. destruct o as [j x|j|j k key e|j]; simpl in *.
+    - apply slot_get_set_other; exact H.
+    - destruct (slot_get j st) as [d|]; [|reflexivity].
+      destruct (vf d); [reflexivity|apply slot_get_set_other; exact H].
+    - destruct (slot_get j st) as [d|]; [|reflexivity]. apply slot_get_set_other; exact H.
+    - reflexivity.
+  Qed.
+
+  (* what an operation does to its description depends on that description only *)
+  Lemma dstep_local st st' o :
+    slot_get (op_slot o) st = slot_get (op_slot o) st' ->
+    slot_get (op_slot o) (dstep mk vf st o) = slot_get (op_slot o) (dstep mk vf st' o).
+  Proof.
+    intro H. destruct o as [j x|j|j k key e|j]; simpl in *.
+    - rewrite !slot_get_set_same; reflexivity.
+    - destruct (slot_get j st) as [d|] eqn:E; rewrite <- H.
+      + destruct (vf d); [rewrite E; exact H|rewrite !slot_get_set_same; reflexivity].
+      + rewrite E; exact H.
+    - destruct (slot_get j st) as [d|] eqn:E; rewrite <- H.
+      + rewrite !slot_get_set_same; reflexivity.
+      + rewrite E; exact H.
+    - exact H.
+  Qed.
+
+  Lemma drun_agree i ops : forall st st',
+    slot_get i st = slot_get i st' ->
+    slot_get i (drun mk vf ops st) = slot_get i (drun mk vf (filter (touches i) ops) st').
+  Proof.
+    induction ops as [|o r IH]; intros st st' H; [exact H|].
+    unfold drun in *. simpl. unfold touches at 1. destruct (Nat.eqb_spec (op_slot o) i) as [E|N].
+    - simpl. apply IH. subst i. apply dstep_local; exact H.
+    - apply IH. rewrite dstep_frame by exact N. exact H.
+  Qed.
+
+  (* every description of a sequence ends up exactly as if the operations on the other
+     descriptions had never happened *)
+  Theorem drun_independent i ops st :
+    slot_get i (drun mk vf ops st) = slot_get i (drun mk vf (filter (touches i) ops) st).
+  Proof. apply drun_agree; reflexivity. Qed.
+
+  (* in particular a description built (and verified) after any history is a function of its
+     own input *)
+  Theorem drun_fresh ops st j x :
+    slot_get j (drun mk vf (ops ++ [DConstruct j x; DVerify j]) st)
+    = Some (match vf (mk x) with inr v => v | inl _ => mk x end).
+  Proof.
+    unfold drun. rewrite fold_left_app. simpl. rewrite slot_get_set_same.
+    destruct (vf (mk x)); [apply slot_get_set_same|].
+    rewrite slot_get_set_same. reflexivity.
+  Qed.
+End Sequences.
